@@ -170,6 +170,59 @@ def selection_product(tier: str, stats: Stats) -> list[Violation]:
         want_w = [f'warning from h{i}' for i, o in enumerate(outs) if o == 'ok+warn']
         if (rsp.get('warnings') or []) != want_w:
             add('wrong-warnings', f"outcomes {outs}: warnings {rsp.get('warnings')}, expected {want_w}")
+    # 3. field criteria: they are about the REVIEWED object (the new one; the old one only when there is no new one, i.e. on DELETE)
+    MISSING = object()
+    crits = {'value=1': dict(field='spec.x', value=1), 'value=ABSENT': dict(field='spec.x', value=kopf.ABSENT), 'value=PRESENT': dict(field='spec.x', value=kopf.PRESENT),
+             'field only': dict(field='spec.x'), 'callable(v == 1)': dict(field='spec.x', value=lambda value, **_: value == 1)}
+    matchers = {'value=1': lambda v: v == 1 and v is not MISSING, 'value=ABSENT': lambda v: v is MISSING, 'value=PRESENT': lambda v: v is not MISSING,
+                'field only': lambda v: v is not MISSING, 'callable(v == 1)': lambda v: v is not MISSING and v == 1}
+    states = [MISSING, 1, 2]
+
+    def with_x(v: Any) -> dict:
+        o = base_object(False)
+        if v is MISSING:
+            o['spec'] = {'y': 0}
+        else:
+            o['spec'] = {'x': v, 'y': 0}
+        return o
+    for typ, (cname, crit) in itertools.product(['validating', 'mutating'], crits.items()):
+        ran = []
+        reg = kopf.OperatorRegistry()
+
+        async def fh(**kw: Any) -> None:
+            ran.append('fh')
+        fh.__name__ = fh.__qualname__ = 'fh'
+        deco = kopf.on.validate if typ == 'validating' else kopf.on.mutate
+        extra = {'operations': ['DELETE']} if typ == 'mutating' else {}
+        reg_all = kopf.OperatorRegistry()
+        deco('kopfexamples', id='fh', registry=reg, **crit)(fh)
+        deco('kopfexamples', id='fh', registry=reg_all, **crit, **extra)(fh)
+        cases = [('CREATE', new, MISSING) for new in states] + [('UPDATE', new, oldv) for new in states for oldv in states] + \
+                [('DELETE', MISSING, oldv) for oldv in states]
+        for op, new, oldv in cases:
+            if op == 'DELETE':
+                req = make_request(op, None, None, old=with_x(oldv))
+                reviewed = oldv
+            else:
+                req = make_request(op, None, with_x(new), old=with_x(oldv) if op == 'UPDATE' else None)
+                reviewed = new
+            ran.clear()
+            try:
+                ctx.serve(reg_all if op == 'DELETE' else reg, req)
+            except Exception as e:
+                add('serve-raises', f"field criterion {cname} request={op}: {type(e).__name__}: {e}", exc=type(e).__name__, part='field-criteria')
+                continue
+            stats.executions += 1
+            want = bool(matchers[cname](reviewed))
+            key = (typ, cname, op, repr(new), repr(oldv))
+            stats.transitions.add(hash(key))
+            if want:
+                stats.nontrivial.add(hash(key))
+            if bool(ran) != want:
+                show = lambda v: 'absent' if v is MISSING else repr(v)
+                add('wrong-selection', f"{typ} handler with {cname} on spec.x {'ran' if ran else 'did not run'} for {op} with object spec.x={show(new)}, "
+                                       f"oldObject spec.x={show(oldv)}; the reviewed object {'matches' if want else 'does not match'}",
+                    type=typ, direction='spurious' if ran else 'missed', why='field-criterion')
     stats.samples.append({'selection_declarations': len(decl_space), 'requests': len(requests), 'outcome_sets': len(outcome_sets)})
     ctx.loop.close()
     return list(viols.values())
